@@ -205,6 +205,13 @@ func (s *Server) newPartition(protoPartition *proto.Partition, recovered bool, c
 		return nil, errors.Wrap(err, "failed to create commit log")
 	}
 
+	// If we're loading a partition that was set to readonly, e.g. when
+	// restoring from a snapshot, the log needs to be readonly too since the
+	// operation which set it is not applied again.
+	if protoPartition.Readonly {
+		log.SetReadonly(true)
+	}
+
 	replicas := make(map[string]struct{}, len(protoPartition.Replicas))
 	for _, replica := range protoPartition.Replicas {
 		replicas[replica] = struct{}{}
